@@ -178,6 +178,16 @@ theorem C18_shape_conversion (run : Nat) (p : Path) (o : OldProp) :
     Shape.convertedG Gen.extraRules run p o = some (converted run p o) :=
   shape_conversion run p o
 
+/-- The refusal as written: the names tested before anything is changed (`needed`) are the names of the properties
+the rules create — same suffix, field and test, in the same order — and the test evaluates to the model's
+`nameTaken`, for every file. -/
+theorem C18_shape_refusal (run : Nat) (ps : List (Path × PObj)) (p : Path) (o : OldProp) :
+    Shape.nameTakenG Gen.refusal ps p o = some (nameTaken ps (converted run p o)) ∧
+    Gen.refusal = Gen.extraRules.filterMap (fun r => match r.act with
+      | .prop suf _ => some (suf, r.field, r.test)
+      | .attrHead _ => none) :=
+  ⟨shape_refusal run ps p o, by decide⟩
+
 /-- The readers through which "reads as before" is stated (`nixio/dimensions.py`): `RangeDimension.is_alias` as
 written evaluates to the model's `isAliasRead`; the getters `ticks`, `unit`, `label` as written choose the source
 (`_redirgrp` / the `DimensionLink` / the dimension group) that the model's `readDim` reads. -/
@@ -192,11 +202,11 @@ theorem C18_shape_readers (a : Arr) (d : Dim) :
       | .own => ⟨d.ticks.getD "[]", d.unit, d.label⟩) :=
   ⟨shape_is_alias d, (shape_sources d).1, (shape_sources d).2.1, (shape_sources d).2.2, readDim_source a d⟩
 
-/-- Order of the writes of one conversion as written: the old dataset is deleted first, the main property is
-created next, then one operation per extras rule in rule order (`convertPropTake` cuts this sequence); a dimension
+/-- Order of the writes of one conversion as written: the refusal comes before anything is changed, then the old
+dataset is deleted, the main property is created next, then one operation per extras rule in rule order (`convertPropTake` cuts this sequence); a dimension
 gets its link group first, the alias link is removed last (`Dim.halfConverted` is the state in between). -/
 theorem C18_shape_ops :
-    Gen.propOps = ["delete", "create:main"] ++
+    Gen.propOps = ["refuse", "delete", "create:main"] ++
       Gen.extraRules.map (fun r => (if r.elseOfPrev then "extra-else:" else "extra:") ++ r.field) ∧
     Gen.dimOps.head? = some "create:link" ∧ Gen.dimOps.getLast? = some "delete:alias" ∧
     (∀ x ∈ ["target", "attr:entity_id", "attr:data_object_type", "attr:index", "attr:created_at",
@@ -367,15 +377,19 @@ Outside the property's quantifier ("between conversion steps"), but stated and p
 re-check of a property conversion looks only at the main dataset, so a conversion cut after `del hfile[propname]`
 is never taken up again. -/
 
-/-- Whatever the point inside the conversion of a compound property `p` (before its `(c+1)`-th
-`create_property` call, any `c`): no later `collect_tasks` schedules `p` again; cut before the first call the
-dataset is gone altogether; cut after the last call it is the complete conversion. For every file. -/
+/-- Whatever the point inside the conversion of a compound property `p` (past the refusal test, before its
+`(c+1)`-th `create_property` call, any `c`): no later `collect_tasks` schedules `p` again; cut before the first call
+the dataset is gone altogether; cut after the last call it is the complete conversion; and a conversion that is
+refused (a needed name is taken) has changed nothing wherever it would have been cut. For every file. -/
 theorem C18_inside_never_rescheduled (lib : List Nat) (run c : Nat) (f : File) (p : Path) (o : OldProp)
     (ho : lookup f.props p = some (.old o)) :
-    Step.prop p ∉ collect lib (convertPropTake run f p c).1 ∧
-    hasPath (convertPropTake run f p 0).1.props p = false ∧
+    (nameTaken f.props (converted run p o) = false →
+      Step.prop p ∉ collect lib (convertPropTake run f p c).1 ∧
+      hasPath (convertPropTake run f p 0).1.props p = false) ∧
+    (nameTaken f.props (converted run p o) = true → convertPropTake run f p c = (f, some .valueError)) ∧
     ((converted run p o).length ≤ c → convertPropTake run f p c = convertProp run f p) :=
-  ⟨inside_not_scheduled lib c ho, (inside_zero_gone ho).1,
+  ⟨fun hfree => ⟨inside_not_scheduled lib c ho hfree, (inside_zero_gone ho hfree).1⟩,
+   fun ht => (inside_refused c ho ht).1,
    fun hc => inside_full c (fun o' ho' => by rw [ho] at ho'; cases ho'; exact hc)⟩
 
 /-- A range dimension cut between the creation of its link group and the removal of the alias link holds both:
